@@ -49,7 +49,7 @@ FAMILIES = {
         {'family': 'tlc', 'knobs': {}, 'quick': 320, 'thorough': 3200, 'first': 500000},
         {'family': 'tlccover', 'knobs': {}, 'quick': 0, 'thorough': 0, 'first': 700000},
         {'family': 'core', 'knobs': {}, 'quick': 300, 'thorough': 5000},
-        {'family': 'core', 'knobs': {'late_actions': True, 'p_cancel': 0.2}, 'quick': 150, 'thorough': 2500, 'first': 100000},
+        {'family': 'core', 'knobs': {'late_actions': True, 'p_cancel': 0.2, 'p_bad_n': 0.06}, 'quick': 150, 'thorough': 2500, 'first': 100000},
         # the application cancels / requests more on an interaction whose request frame is still waiting for a lease
         {'family': 'lease', 'knobs': {'lease_cancel': True}, 'quick': 150, 'thorough': 2500, 'first': 300000},
         {'family': 'core', 'knobs': {'late_actions': True, 'p_cancel': 0.3, 'p_auto_request': 0.8, 'p_cancel_race': 0.8,
